@@ -29,6 +29,7 @@ from concurrent.futures import ThreadPoolExecutor
 import vlib
 import render
 import c05_util as U
+import enc2_util
 from vlib import Check, run_tlc, tlc_must_pass, run_cases
 
 PROP = "C05"
@@ -210,7 +211,11 @@ def double_jobs(tier, seed):
 
 def run_cli(args, cwd=None):
     try:
-        p = subprocess.run(["timeout", "20", vlib.CLI_BIN] + args, capture_output=True, cwd=cwd)
+        # a kill by the limit on a loaded machine is not evidence about the code: one retry with a long limit
+        for limit in ("20", "180"):
+            p = subprocess.run(["timeout", limit, vlib.CLI_BIN] + args, capture_output=True, cwd=cwd)
+            if p.returncode != 124:
+                break
     except OSError as e:                       # e.g. argument list too long: not a verdict
         return None, b"", str(e).encode()
     return p.returncode, p.stdout, p.stderr
@@ -276,7 +281,7 @@ def cli_part(chk, multi_of, tier, seed):
         cnt[mode] += 1
         chk.count(key="cli:" + mode + ":" + src, nontrivial=True)
         payload = {"cli": mode, "src": src, "expected": exp.decode("utf-8", "replace")}
-        if rc is None:
+        if rc is None or rc == 124:            # not run / killed twice by the time limit: resource exhaustion
             chk.outside += 1
             continue
         if rc != 0:
@@ -476,6 +481,7 @@ def run(tier, seed):
     tlc_must_pass(res, "Encode laws / emission")
     chk.add_tlc(res, "round-trip / sorted-visible / well-formed laws + case emission "
                      "(chars, nums, struct, keys sub-universes x settings)")
+    enc2 = enc2_util.start(tier)      # TLC on spec/MC_Encode2.tla, in the background while the cases below run
     tlc_cases = []
     for c in res.lines("CASE"):
         c["v"] = U.norm_value(c["v"])
@@ -567,6 +573,8 @@ def run(tier, seed):
             if j["kind"] == kind and "ok" in res:
                 chk.sample({"src": j["case"]["src"][:300], "document": str(res["ok"])[:300]})
                 break
+    # spec/Encode2.tla: manifestIni, manifestXmlJsonml, manifestYamlStream (stream level), deepJoin, lines, ...
+    enc2_util.extra_manifesters(chk, tier, seed, enc2)
     return chk.finish()
 
 
@@ -574,6 +582,8 @@ def replay(path):
     with open(path) as f:
         rp = json.load(f)
     case = rp["case"]
+    if "enc2" in case:
+        return enc2_util.replay(case)
     if "cli" in case:
         vlib.build_cli()
         args = {"default": [], "yaml-stream": ["-y"], "multi-file": None}[case["cli"]]
